@@ -129,4 +129,9 @@ example : sample.doc.ok = true ∧ sample.doc.keysNulFree = true ∧ sample.doc.
     (Tokener.new 32 0).isSome ∧ (Tokener.new 32 1).isSome := by
   refine ⟨?_, ?_, ?_, ?_, ?_, ?_⟩ <;> decide
 
+
+/-- every source fact this property's model consumes was located in the current source by tools/extract (a fact that is not
+found is emitted with a placeholder value; this obligation then fails and the check uses the reference model) -/
+theorem source_facts_located_c01 : JsonC.Generated.factsFound_tok = true := by decide
+
 end JsonC.Props.C01
